@@ -9,7 +9,7 @@ EXPLANATION = ('Proof by local obligations on FinalizerObserver / FinalizerSubsc
                'FnOnce() only and lives in an Option inside a shared cell created once per actual_subscribe (at most once by typing); '
                'N2+N4 error(), complete() and unsubscribe() each deliver the downstream terminal / inner unsubscribe first and then take() '
                'and call the callback on every path on which it is still there; N3 no other method takes or calls it; N5 the take() is made '
-               'through the cell guard, so racing triggers cannot both obtain it; N6 the callback cell is the innermost lock: no method of the finalize observer/subscription calls the inner subscription or the downstream observer while holding its guard (a terminating thread takes the cell last, under the source-side locks: the opposite order blocks both and the callback never runs). All obligations must be discharged.')
+               'through the cell guard, so racing triggers cannot both obtain it; N7 the shared subscriber slot upstream of finalize stays locked while it delivers a terminal, so a racing unsubscribe cannot run the callback before the terminal is through (same rule as C02.U6); N6 the callback cell is the innermost lock: no method of the finalize observer/subscription calls the inner subscription or the downstream observer while holding its guard (a terminating thread takes the cell last, under the source-side locks: the opposite order blocks both and the callback never runs). All obligations must be discharged.')
 ASSUMPTIONS = ['RefCell/Mutex give exclusive access to the Option<F> slot; a value moved out by Option::take cannot be obtained twice']
 TECHNIQUE = 'static analysis: type-bound (SIG) obligations and regular-language rules over MIR event graphs'
 
@@ -91,7 +91,21 @@ def _roles_of(cx, im, adt_path):
 def check(cx):
     _env_wrapped = True
     from . import c03
-    return _check_own(cx) + c03.envelopes(cx, ID)
+    return _check_own(cx) + n7(cx) + c03.envelopes(cx, ID)
+
+
+def n7(cx):
+    """'right after the first of those events, never before it' across threads: the subscriber cell that finalize's upstream delivers
+    through stays locked while a terminal is on its way (same rule as C02.U6), so an unsubscribe() racing that terminal — which takes
+    the same cell before it reaches FinalizerSubscription::unsubscribe — waits until the terminal (and the callback behind it) is
+    through; released earlier, the unsubscribing thread runs the callback while complete()/error() is still being delivered"""
+    if cx.control:
+        return []
+    from . import c02
+    out = [Finding(ID, 'N7', f.key, f.ok, f.msg, f.loc, f.witness) for f in c02.u6(cx) if '::error' in f.key or '::complete' in f.key]
+    if len(out) < 4:
+        out.append(Finding(ID, 'N7', 'floor', False, 'expected the terminal methods of the two shared-slot observers, found %d' % len(out)))
+    return out
 
 
 def _check_own(cx):
